@@ -438,8 +438,10 @@ def check_property(prop, tier, seed, rebaseline=False, jobs=None):
     except Exception as ex:
         print(f"CHECKER-BROKEN evidence does not validate: {str(ex)[:300]}")
         broken.append("evidence invalid")
-    (ROOT / "evidence").mkdir(exist_ok=True)
-    (ROOT / "evidence" / f"{prop}.json").write_text(json.dumps(ev, indent=1, default=str))
+    # evidence/ records runs against /repo itself; a development run against a scratch tree (PYVC_REPO) writes elsewhere
+    evdir = ROOT / "evidence" if os.path.realpath(REPO) == "/repo" else ROOT / ".cache" / "evidence_scratch"
+    evdir.mkdir(parents=True, exist_ok=True)
+    (evdir / f"{prop}.json").write_text(json.dumps(ev, indent=1, default=str))
     print(f"{prop}: level={level} obligations={discharged}/{total_obl} functions(P)={sum(1 for f in functions if f['class']=='P')}/{len(functions)} "
           f"bounded_evals={evaluations} violations={len(violations)} known={len(known_printed)} wall={wall}s")
     if violations:
